@@ -187,3 +187,434 @@ func ruleBOUNDSOURCE(p *Program, rep *Report) {
 		rep.Unknown("BOUND-SOURCE", "anchor", "", "no store to Tx.dataEndID found (anchor lost)")
 	}
 }
+
+// ---- ALLOC-UNDOABLE (C07, C11, C04) ----
+
+// undoFlow decides whether a value (a region / page id taken out of a FREELIST) reaches, on the way it is
+// handed around, one of the journals from which allocator.Rollback returns pages to a freelist:
+// txAllocArea.allocated (allocArea.rollback adds it back) or txAreaManageState.moveToMeta (Rollback moves
+// those regions into data.allocated).  txAllocArea.new does NOT count: pages recorded there are undone by
+// restoring the end marker only, which is right for pages taken from beyond the end marker and loses
+// pages that came out of a freelist.
+type undoFlow struct {
+	v    *allocVocab
+	p    *Program
+	seenK map[undoKey]bool
+}
+
+// isUndoJournal: x is the address of an undo journal; a parameter is resolved through the call the analysis
+// came through (site), so a helper that receives the journal to record in is judged per caller.
+func (u *undoFlow) isUndoJournal(x ssa.Value, site ssa.CallInstruction) bool {
+	switch a := x.(type) {
+	case *ssa.FieldAddr:
+		f := fieldOfAddr(a)
+		return f == u.v.fAllocated || f == u.v.fMoveToMeta
+	case *ssa.Parameter:
+		if site != nil && site.Common().StaticCallee() == a.Parent() {
+			if pi := paramIndex(a.Parent(), a); pi >= 0 && pi < len(site.Common().Args) {
+				return u.isUndoJournal(site.Common().Args[pi], nil)
+			}
+		}
+	}
+	return false
+}
+
+type undoKey struct {
+	v    ssa.Value
+	site ssa.CallInstruction
+}
+
+func (u *undoFlow) reaches(val ssa.Value, site ssa.CallInstruction, depth int) bool {
+	k := undoKey{val, site}
+	if val == nil || depth > 6 || u.seenK[k] {
+		return false
+	}
+	u.seenK[k] = true
+	d := forwardDerived(val)
+	fn := val.Parent()
+	for x := range d {
+		refs := x.Referrers()
+		if refs == nil {
+			continue
+		}
+		for _, r := range *refs {
+			switch y := r.(type) {
+			case ssa.CallInstruction:
+				args := y.Common().Args
+				sc := y.Common().StaticCallee()
+				// journal.Add(derived) — pageSet.Add / regionList.Add with the journal as receiver
+				if len(args) >= 2 && u.isUndoJournal(args[0], site) {
+					for _, a := range args[1:] {
+						if d[a] {
+							return true
+						}
+					}
+				}
+				// derived.EachPage(journal.Add)
+				if len(args) >= 1 && d[args[0]] {
+					for _, a := range args[1:] {
+						if mc, ok := a.(*ssa.MakeClosure); ok {
+							if g, ok := mc.Fn.(*ssa.Function); ok && strings.HasSuffix(g.Name(), "$bound") && len(mc.Bindings) == 1 && u.isUndoJournal(mc.Bindings[0], site) {
+								return true
+							}
+						}
+					}
+				}
+				// helper called with the derived value
+				if sc != nil && u.p.InRepo(sc) && len(sc.Blocks) > 0 {
+					for i, a := range args {
+						if d[a] && i < len(sc.Params) && u.reaches(sc.Params[i], y, depth+1) {
+							return true
+						}
+					}
+				}
+				// callback parameter called with the derived value: resolve the closure at every call site
+				if par, ok := y.Common().Value.(*ssa.Parameter); ok && !y.Common().IsInvoke() && fn != nil {
+					hit := false
+					for i, a := range args {
+						if !d[a] {
+							continue
+						}
+						if u.callbackReaches(fn, par, i, depth+1) {
+							hit = true
+						}
+					}
+					if hit {
+						return true
+					}
+				}
+				if fv, ok := y.Common().Value.(*ssa.FreeVar); ok && !y.Common().IsInvoke() && fn != nil {
+					// closure calling a captured callback: resolve through the enclosing function's parameter
+					if outer := fn.Parent(); outer != nil {
+						for _, b := range outer.Blocks {
+							for _, ins := range b.Instrs {
+								mc, ok := ins.(*ssa.MakeClosure)
+								if !ok || mc.Fn != ssa.Value(fn) {
+									continue
+								}
+								for bi, fvv := range fn.FreeVars {
+									if fvv != fv || bi >= len(mc.Bindings) {
+										continue
+									}
+									if opar, ok := mc.Bindings[bi].(*ssa.Parameter); ok {
+										for i, a := range args {
+											if d[a] && u.callbackReaches(outer, opar, i, depth+1) {
+												return true
+											}
+										}
+									}
+								}
+							}
+						}
+					}
+				}
+			case *ssa.Return:
+				if fn == nil {
+					continue
+				}
+				idx := -1
+				for i, rv := range y.Results {
+					if d[rv] {
+						idx = i
+					}
+				}
+				if idx < 0 {
+					continue
+				}
+				sites := u.p.callIndex().sites[fn]
+				if site != nil && site.Common().StaticCallee() == fn {
+					sites = []ssa.CallInstruction{site}
+				}
+				if len(sites) == 0 {
+					continue
+				}
+				all := true
+				for _, site := range sites {
+					sv := site.Value()
+					if sv == nil {
+						all = false
+						break
+					}
+					var rv ssa.Value = sv
+					if fn.Signature.Results().Len() > 1 {
+						rv = nil
+						if sv.Referrers() != nil {
+							for _, rr := range *sv.Referrers() {
+								if ex, ok := rr.(*ssa.Extract); ok && ex.Index == idx {
+									rv = ex
+								}
+							}
+						}
+					}
+					if rv == nil || !u.reaches(rv, nil, depth+1) {
+						all = false
+						break
+					}
+				}
+				if all {
+					return true
+				}
+			}
+		}
+	}
+	return false
+}
+
+// callbackReaches: at every call site of fn the function value passed for parameter par records its
+// argIdx-th argument in an undo journal.
+func (u *undoFlow) callbackReaches(fn *ssa.Function, par *ssa.Parameter, argIdx int, depth int) bool {
+	pi := paramIndex(fn, par)
+	sites := u.p.callIndex().sites[fn]
+	if pi < 0 || len(sites) == 0 {
+		return false
+	}
+	for _, site := range sites {
+		if pi >= len(site.Common().Args) {
+			return false
+		}
+		var g *ssa.Function
+		var bindRecv ssa.Value
+		switch a := site.Common().Args[pi].(type) {
+		case *ssa.MakeClosure:
+			g, _ = a.Fn.(*ssa.Function)
+			if g != nil && strings.HasSuffix(g.Name(), "$bound") && len(a.Bindings) == 1 {
+				bindRecv = a.Bindings[0]
+			}
+		case *ssa.Function:
+			g = a
+		case *ssa.Parameter:
+			// passed through: follow one more level
+			if !u.callbackReaches(site.Parent(), a, argIdx, depth+1) {
+				return false
+			}
+			continue
+		}
+		if g == nil {
+			return false
+		}
+		if bindRecv != nil {
+			if !u.isUndoJournal(bindRecv, nil) {
+				return false
+			}
+			continue
+		}
+		if argIdx >= len(g.Params) || !u.reaches(g.Params[argIdx], nil, depth+1) {
+			return false
+		}
+	}
+	return true
+}
+
+func ruleALLOCUNDOABLE(p *Program, rep *Report) {
+	rep.Rule("ALLOC-UNDOABLE", 2, "every region/page taken out of a FREELIST before the commit reaches a journal from which allocator.Rollback returns pages to that freelist — txAllocArea.allocated or txAreaManageState.moveToMeta — on the way it is handed around (helpers, callbacks, results followed to every caller); txAllocArea.new is not such a journal (it is undone by restoring the end marker only)")
+	v := newAllocVocab(p)
+	n := 0
+	for _, fn := range p.SrcFuncs() {
+		if fnPkgPath(fn) != modPath || v.flAllocs[fn] || strings.HasPrefix(funcName(fn), "(*txfile.freelist)") {
+			continue
+		}
+		for _, b := range fn.Blocks {
+			for _, ins := range b.Instrs {
+				c, ok := ins.(ssa.CallInstruction)
+				if !ok || !v.flAllocs[c.Common().StaticCallee()] {
+					continue
+				}
+				callee := c.Common().StaticCallee()
+				outer := fn
+				for outer.Parent() != nil {
+					outer = outer.Parent()
+				}
+				if !preCommitReachable(p, outer) {
+					continue
+				}
+				n++
+				key := funcName(outer) + "|" + callee.Name()
+				rep.Analysed(funcName(outer))
+				// judged per caller of the (non-exported) function holding the primitive: a shared helper may be
+				// handed the journal, or hand the region back, differently by each of its callers
+				var ctxs []ssa.CallInstruction
+				if !exportedAPI(fn) && fn.Parent() == nil {
+					ctxs = p.callIndex().sites[fn]
+				}
+				if len(ctxs) == 0 {
+					ctxs = []ssa.CallInstruction{nil}
+				}
+				ok2 := true
+				badCtx := ""
+				for _, ctx := range ctxs {
+					u := &undoFlow{v: v, p: p, seenK: map[undoKey]bool{}}
+					okc := false
+					if val := c.Value(); val != nil && u.reaches(val, ctx, 0) {
+						okc = true
+					}
+					if !okc {
+						for _, a := range c.Common().Args {
+							if mc, isC := a.(*ssa.MakeClosure); isC {
+								if g, isF := mc.Fn.(*ssa.Function); isF {
+									for _, par := range g.Params {
+										if u.reaches(par, ctx, 0) {
+											okc = true
+										}
+									}
+								}
+							}
+						}
+					}
+					if !okc {
+						ok2 = false
+						if ctx != nil {
+							badCtx = " (called from " + funcName(ctx.Parent()) + ")"
+						}
+					}
+				}
+				if ok2 {
+					rep.OK("ALLOC-UNDOABLE", key, p.InstrPos(ins), "pages taken from the freelist reach txAllocArea.allocated / moveToMeta")
+				} else {
+					rep.Bad("ALLOC-UNDOABLE", key, p.InstrPos(ins), "pages taken out of a freelist by "+callee.Name()+" in "+funcName(outer)+badCtx+" never reach txAllocArea.allocated or the moveToMeta journal: after Rollback/Close/failed Commit they are in no freelist and in no live structure — leaked (recording them in txAllocArea.new only restores the end marker, which does not cover freelist pages)")
+				}
+			}
+		}
+	}
+	if n == 0 {
+		rep.Unknown("ALLOC-UNDOABLE", "anchor", "", "no pre-commit freelist allocation site found (anchor lost)")
+	}
+}
+
+// preCommitReachable: fn is reachable from the Tx/Page API other than through the commit-time switch
+// (allocator.Commit and below are not pre-commit).  AllocAllRegions-style open-time use is excluded by
+// requiring reachability from an exported Tx or Page method.
+func preCommitReachable(p *Program, fn *ssa.Function) bool {
+	roots := []*ssa.Function{}
+	for _, typ := range []string{"Tx", "Page"} {
+		roots = append(roots, methodsOf(p, "txfile", typ, true)...)
+	}
+	return staticReach(p, roots...)[fn]
+}
+
+// ---- EVENT-BOUNDARY (C12, C13, C17) ----
+
+// ruleEVENTBOUNDARY: Writer.Next publishes the finished event into the write buffer (buffer.CommitEvent) and
+// then moves the writer's per-event state to the next event.  The implicit flush at the end of Next can
+// fail (file full); the event is published all the same and is flushed by a later call.  So every
+// writeState field that the successful path updates after CommitEvent has to be updated on the failing
+// path too — otherwise the next event is framed with the previous event's byte count / id / counters.
+func ruleEVENTBOUNDARY(p *Program, rep *Report) {
+	rep.Rule("EVENT-BOUNDARY", 2, "in Writer.Next every writeState field whose update lies on every successful path after buffer.CommitEvent is also updated on every failing path after it (a failed implicit flush must not skip the per-event bookkeeping: the event is already published in the buffer)")
+	next := p.Method("pq", "Writer", "Next")
+	commitEv := p.Method("pq", "buffer", "CommitEvent")
+	ws := p.Struct("pq", "writeState")
+	rep.Analysed(funcName(next))
+	isWS := map[*types.Var]bool{}
+	for i := 0; i < ws.NumFields(); i++ {
+		isWS[ws.Field(i)] = true
+	}
+	var cBlk *ssa.BasicBlock
+	cIdx := -1
+	for _, b := range next.Blocks {
+		for i, ins := range b.Instrs {
+			if c, ok := ins.(ssa.CallInstruction); ok && c.Common().StaticCallee() == commitEv {
+				cBlk, cIdx = b, i
+			}
+		}
+	}
+	if cBlk == nil {
+		rep.Unknown("EVENT-BOUNDARY", "Writer.Next|anchor", p.Pos(next.Pos()), "Writer.Next does not call buffer.CommitEvent directly (anchor lost)")
+		return
+	}
+	// blocks storing each field after the commit point
+	storeBlocks := map[*types.Var]map[*ssa.BasicBlock]bool{}
+	after := reachableAvoiding(cBlk, nil, nil)
+	for _, b := range next.Blocks {
+		for i, ins := range b.Instrs {
+			st, ok := ins.(*ssa.Store)
+			if !ok {
+				continue
+			}
+			fa, ok := st.Addr.(*ssa.FieldAddr)
+			if !ok || !isWS[fieldOfAddr(fa)] {
+				continue
+			}
+			if b == cBlk && i < cIdx {
+				continue
+			}
+			if b != cBlk && !after[b] {
+				continue
+			}
+			f := fieldOfAddr(fa)
+			if storeBlocks[f] == nil {
+				storeBlocks[f] = map[*ssa.BasicBlock]bool{}
+			}
+			storeBlocks[f][b] = true
+		}
+	}
+	// bookkeeping extracted into a helper: a call (after the commit point) of a pq function that stores the
+	// field on every one of its return paths counts as the update
+	for _, b := range next.Blocks {
+		for i, ins := range b.Instrs {
+			c, ok := ins.(ssa.CallInstruction)
+			if !ok || (b == cBlk && i < cIdx) || (b != cBlk && !after[b]) {
+				continue
+			}
+			cal := c.Common().StaticCallee()
+			if cal == nil || cal == commitEv || fnPkgPath(cal) != modPath+"/pq" || len(cal.Blocks) == 0 {
+				continue
+			}
+			if _, isDefer := ins.(*ssa.Defer); isDefer {
+				continue
+			}
+			for i := 0; i < ws.NumFields(); i++ {
+				f := ws.Field(i)
+				if everyReturnPasses(p, cal, func(x ssa.Instruction) bool { _, ok := storesToField(x, f); return ok }, 0) {
+					if storeBlocks[f] == nil {
+						storeBlocks[f] = map[*ssa.BasicBlock]bool{}
+					}
+					storeBlocks[f][b] = true
+				}
+			}
+		}
+	}
+	var names []string
+	byName := map[string]*types.Var{}
+	for f := range storeBlocks {
+		names = append(names, f.Name())
+		byName[f.Name()] = f
+	}
+	sort.Strings(names)
+	n := 0
+	for _, name := range names {
+		f := byName[name]
+		blocked := storeBlocks[f]
+		if blocked[cBlk] {
+			n++
+			rep.OK("EVENT-BOUNDARY", "Writer.Next|"+name, p.Pos(next.Pos()), "updated together with CommitEvent")
+			continue
+		}
+		reach := reachableAvoiding(cBlk, blocked, nil)
+		okSuccess, okFail := true, true
+		var failPos string
+		for b := range reach {
+			r, isRet := b.Instrs[len(b.Instrs)-1].(*ssa.Return)
+			if !isRet {
+				continue
+			}
+			if returnsNilError(r) {
+				okSuccess = false
+			} else {
+				okFail = false
+				failPos = p.InstrPos(r)
+			}
+		}
+		if !okSuccess {
+			continue // conditional bookkeeping (min/max/timestamps): not an every-event update
+		}
+		n++
+		if okFail {
+			rep.OK("EVENT-BOUNDARY", "Writer.Next|"+name, p.Pos(next.Pos()), "updated on every path after CommitEvent")
+		} else {
+			rep.Bad("EVENT-BOUNDARY", "Writer.Next|"+name, failPos, "writeState."+name+" is updated on every successful path of Writer.Next after buffer.CommitEvent but not on the error return at "+failPos+": when the implicit flush fails (file full) the event is published but the writer's per-event state is not advanced — the next event is framed with stale "+name+" (wrong size header / duplicate id / wrong counters), corrupting everything the reader parses behind it")
+		}
+	}
+	if n == 0 {
+		rep.Unknown("EVENT-BOUNDARY", "Writer.Next|anchor", p.Pos(next.Pos()), "no writeState update after CommitEvent found (anchor lost)")
+	}
+}
